@@ -119,7 +119,12 @@ def axis(inp):
     N = int(inp["NFFT"])
     fs = num(inp.get("sampling", 1.0))
     sides = inp["sides"]
-    s = _mk_spectrum(N, sides, np.zeros(nlen(sides, N)), "real", fs)
+    if inp.get("after_set"):
+        # built with another sampling frequency, then assigned through the real setter
+        s = _mk_spectrum(N, sides, np.zeros(nlen(sides, N)), "real", 3.0 * fs + 1.0)
+        s.sampling = fs
+    else:
+        s = _mk_spectrum(N, sides, np.zeros(nlen(sides, N)), "real", fs)
     got = np.array(s.frequencies(sides))
     df = fs / N
     want = np.array([(i - N // 2) * df if sides == "centerdc" else i * df for i in range(nlen(sides, N))])
